@@ -2293,10 +2293,15 @@ impl Element for XmlElement {
 
     fn attributes(&self) -> UnorderedSet<XmlNode<XmlAttribute>> {
         let mut items = self.attributes_specified();
+        // A namespace declaration that is written on the element is specified too.
+        let declared = self.namespace_attributes();
 
         for attr in self.declaration_att_defs().as_slice() {
             if attr.value != XmlDeclarationAttDefault::Implied
                 && !items
+                    .iter()
+                    .any(|v| equal_qname(v.borrow().qname(), attr.qname()))
+                && !declared
                     .iter()
                     .any(|v| equal_qname(v.borrow().qname(), attr.qname()))
             {
